@@ -107,14 +107,33 @@ def judge(root_seq, parent_seq, parent_before, parent, child, F, move, case):
             v("carried-dmax:" + move, "%s on %s -> %s: carried delta-max %r, a fresh object computes %r" % (move, parent_seq, cs, child.dmax, fd))
     if child is not parent and parent_before is not None and snap(parent) != parent_before:
         v("parent-altered:" + move, "%s altered the object it was called on (%s)" % (move, parent_seq))
+    if case.get("light") and not out:
+        try:
+            lc, lf = light(child), light(fresh)
+            if lc != lf:
+                v("child-analysis-differs:" + move, "%s on %s -> %s: (SCD, delta, FCR, NCPR, n+, n-, hydropathy) of the returned object %r, "
+                  "of a fresh object %r" % (move, parent_seq, cs, lc, lf))
+        except Exception as e:  # noqa
+            v("child-analysis-differs:" + move, "%s -> %s: analyses of the returned object raised %r" % (move, cs, e))
     return out
 
 
 def make_parent(seq, cached):
     p = S().Sequence(seq)
     if cached:
+        # warm everything a parent could have memoised before it is asked for a child
         p.deltaMax()
+        p.sequence_charge_decoration()
+        p.delta()
+        p.FCR()
+        p.NCPR()
+        p.meanHydropathy()
     return p
+
+
+def light(o):
+    return (round(float(o.sequence_charge_decoration()), 12), round(float(o.delta()), 12), o.FCR(), o.NCPR(), o.countPos(), o.countNeg(),
+            round(float(o.meanHydropathy()), 12))
 
 
 # ------------------------------------------------------------------------------------------------ complete trees
@@ -141,7 +160,7 @@ def run_complete(seq, cached, move, F, fk, acc, maxleaves=None):
         acc.transitions += 1
         acc.capped += tape.capped
         case = {"kind": "move", "seq": seq, "cached": cached, "move": move, "frozen": sorted(F), "frozen_type": fk,
-                "tape": tape.choices(), "mode": "complete"}
+                "tape": tape.choices(), "mode": "complete", "light": bool(cached and fk == "set")}
         tag, val, parent, before = res
         if tag == "truncated":
             acc.truncated += 1
@@ -176,7 +195,8 @@ def shard_complete(s):
                 for j in range(L):
                     parent = make_parent(seq, cached)
                     before = snap(parent)
-                    case = {"kind": "move", "seq": seq, "cached": cached, "move": "swapRes", "ij": [i, j], "frozen": []}
+                    case = {"kind": "move", "seq": seq, "cached": cached, "move": "swapRes", "ij": [i, j], "frozen": [],
+                            "light": bool(cached)}
                     acc.transitions += 1
                     acc.traces += 1
                     try:
@@ -355,6 +375,96 @@ def explore_chain(root, cached, acc):
                 "deepest_history": [(m_, ij_) for m_, ij_, _ in max(seen.values(), key=len)]}, cap=2)
 
 
+def shard_twostep(s):
+    """Two moves in a row with DIFFERENT frozen sets, complete trees of both moves' draws (one tape spans both)."""
+    acc = core.Acc()
+    S()
+    roots, combos = s
+    for root in roots:
+        L = len(root)
+        subsets = [()] + [(i,) for i in range(L)]
+        acc.states += 1
+        acc.nontrivial += 1
+        for m1, m2 in combos:
+            for F1 in subsets:
+                for F2 in subsets:
+                    if "full_shuffle" in (m1, m2) and not (F1 if m1 == "full_shuffle" else F2):
+                        continue        # keep the shuffle tree small: shuffles here always have one frozen site
+                    def run(tape):
+                        p = make_parent(root, False)
+                        c1 = do_move(m1, p, set(F1))
+                        b1 = snap(c1)
+                        c2 = do_move(m2, c1, set(F2))
+                        return c1, b1, c2
+                    for tape, res in C.explore(lambda t: _guard(run, t), "complete", horizon=60, float_menu=MENU_HALF):
+                        acc.transitions += 1
+                        acc.traces += 1
+                        case = {"kind": "twostep", "root": root, "moves": [m1, m2], "frozen": [list(F1), list(F2)], "tape": tape.choices()}
+                        if res[0] != "ok":
+                            if res[0] == "raised":
+                                acc.viol("raises:" + m2, "%s(%r) then %s(%r) on %s raised %r" % (m1, F1, m2, F2, root, res[1]), case)
+                            else:
+                                acc.truncated += 1
+                            continue
+                        c1, b1, c2 = res[1]
+                        acc.evaluations += 1
+                        acc.out(("2step", c2.seq))
+                        for x in judge(root, c1.seq, b1, c1, c2, set(F2), m2, case):
+                            acc.viol(x["key"] + "(second move)", x["what"], x["case"])
+    return acc
+
+
+def _guard(run, tape):
+    try:
+        return ("ok", run(tape))
+    except C.Truncated as e:
+        return ("truncated", str(e))
+    except C.Divergence:
+        raise
+    except Exception as e:  # noqa
+        return ("raised", e)
+
+
+def shard_sharedfrozen(s):
+    """One frozen-set OBJECT handed to a move on a short sequence (some positions beyond its end) and then, the same object,
+    to a move on a longer sequence: the second result must honour every position the caller put into the set."""
+    acc = core.Acc()
+    S()
+    for short, long_, F0 in s:
+        for move in ("full_shuffle", "get_shuffled_sequence", "swapRandChargeRes"):
+            def run(tape):
+                F = set(F0)
+                p1 = make_parent(short, False)
+                if move == "get_shuffled_sequence":
+                    from localcider.sequenceParameters import SequenceParameters as SP
+                    SP(SeqObj=p1).get_shuffled_sequence(F)
+                else:
+                    getattr(p1, move)(F)
+                p2 = make_parent(long_, False)
+                b2 = snap(p2)
+                if move == "get_shuffled_sequence":
+                    from localcider.sequenceParameters import SequenceParameters as SP
+                    c = SP(SeqObj=p2).get_shuffled_sequence(F).SeqObj
+                else:
+                    c = getattr(p2, move)(F)
+                return p2, b2, c, sorted(F)
+            for tape, res in C.explore(lambda t: _guard(run, t), "complete", horizon=60, float_menu=MENU_HALF):
+                acc.transitions += 1
+                acc.traces += 1
+                acc.states += 1
+                case = {"kind": "sharedfrozen", "short": short, "long": long_, "frozen": sorted(F0), "move": move, "tape": tape.choices()}
+                if res[0] != "ok":
+                    if res[0] == "raised":
+                        acc.viol("raises:" + move, "%s with a frozen set reaching beyond the sequence raised %r" % (move, res[1]), case)
+                    continue
+                p2, b2, c, Fafter = res[1]
+                acc.evaluations += 1
+                acc.out(("shared", c.seq))
+                for x in judge(long_, long_, b2, p2, c, set(F0), move, case):
+                    acc.viol(x["key"] + "(frozen set reused)", x["what"] + " [the caller's set is now %r]" % (Fafter,), x["case"])
+    return acc
+
+
 def shard_chain(s):
     acc = core.Acc()
     for root, cached in s:
@@ -363,7 +473,8 @@ def shard_chain(s):
 
 
 def shard(s):
-    return {"complete": shard_complete, "bounded": shard_bounded, "chain": shard_chain}[s[0]](s[1])
+    return {"complete": shard_complete, "bounded": shard_bounded, "chain": shard_chain, "twostep": shard_twostep,
+            "sharedfrozen": shard_sharedfrozen}[s[0]](s[1])
 
 
 # ------------------------------------------------------------------------------------------------
@@ -373,6 +484,10 @@ def replay(case):
     if case["kind"] == "world":
         a = core.Acc()
         shard_complete(("x", len(case["seq"]), R.pattern_of(case["seq"]), ("set",)))
+        return a.violations
+    if case["kind"] in ("twostep", "sharedfrozen"):
+        a = shard_twostep(([case["root"]], [tuple(case["moves"])])) if case["kind"] == "twostep" else \
+            shard_sharedfrozen([(case["short"], case["long"], tuple(case["frozen"]))])
         return a.violations
     if case["kind"] == "chain":
         hist = [(mv, tuple(x) if x else None, ch) for mv, x, ch in case["history"]]
@@ -431,6 +546,11 @@ def run(tier, seed, t0):
                     shards.append(("bounded", (bpats[i::nb], fchunk, seeds, bound, retry)))
     for c in chains:
         shards.append(("chain", [c]))
+    two_roots = ["KREDG", "KEGAK", "KRGED"] if tier == "quick" else ["KREDG", "KEGAK", "KRGED", "KREDGA", "GKEGRD"]
+    for r_ in two_roots:
+        for combo in (("swapRandChargeRes", "swapRandChargeRes"), ("full_shuffle", "swapRandChargeRes"), ("swapRandChargeRes", "full_shuffle")):
+            shards.append(("twostep", ([r_], [combo])))
+    shards.append(("sharedfrozen", [("KEG", "KEGKEG", (1, 4)), ("KE", "KREDGA", (0, 3, 5)), ("GKE", "GKEDRS", (2, 9, 4))]))
     acc = core.pmap(shard, shards)
     return core.finish(
         PROP, tier, seed, acc, t0,
@@ -441,9 +561,10 @@ def run(tier, seed, t0):
              "%d patterns x %d frozen sets, all tapes within %d deviation(s) of %d base tape(s) (VERIF_SEED-derived), horizon 60 choice "
              "points, retry bound %d candidate children (cut executions are 'truncated' and not judged). Chains: BFS over live "
              "objects under swapRes/full_shuffle/swapRandChargeRes x all tapes to the fixpoint of (arrangement, cached) states from "
-             "%d roots. Oracle per execution: child is a rearrangement, frozen positions keep their residue, child.len / charge "
-             "pattern / counts equal a fresh object's, carried delta-max equals a fresh delta-max, deep snapshot of the parent "
-             "unchanged, package state unchanged, shuffles and swaps never raise; transitions = executions" % (
+             "%d roots; two-move sequences with a different single-site frozen set per move (complete trees of both moves); one frozen-set "
+             "object reused on a short and then a longer sequence. Oracle per execution: child is a rearrangement, frozen positions keep their residue, child.len / charge "
+             "pattern / counts equal a fresh object's, carried delta-max equals a fresh delta-max, with warmed parent caches the child's SCD/delta/FCR/NCPR/counts/hydropathy equal a "
+             "fresh object's, deep snapshot of the parent unchanged, package state unchanged, shuffles and swaps never raise; transitions = executions" % (
                  Lc, "/".join(fkinds), len(bpats), len(frozens), bound, len(seeds), retry, len(chains)),
         bounds={"L_complete": Lc, "bounded_patterns": len(bpats), "frozen_sets_bounded": len(frozens), "deviations": bound,
                 "base_tapes": len(seeds), "horizon": 60, "retry_bound": retry, "chain_roots": len(chains)},
